@@ -402,31 +402,48 @@ func c04r4(c *Check) {
 
 func c04r5(c *Check) {
 	fn := c.P.Func("rewriter", "RW", "Do")
-	buf := fn.Params[1]
-	allowed := map[string]bool{"(*regexp.Regexp).Match": true, "bytes.Contains": true, "(*regexp.Regexp).ReplaceAll": true, "bytes.Replace": true, "bytes.ReplaceAll": true, "builtin.len": true}
+	allowed := map[string]bool{"(*regexp.Regexp).Match": true, "bytes.Contains": true, "(*regexp.Regexp).ReplaceAll": true, "bytes.Replace": true, "bytes.ReplaceAll": true, "builtin.len": true,
+		"bytes.HasPrefix": true, "bytes.HasSuffix": true, "bytes.Index": true, "bytes.IndexByte": true, "bytes.Equal": true, "(*regexp.Regexp).MatchString": true}
 	var w []string
-	allInstrs(fn, func(in ssa.Instruction) {
-		switch x := in.(type) {
-		case *ssa.Call:
-			uses := false
-			for _, a := range x.Call.Args {
-				if derivedFrom(a, buf, map[ssa.Value]bool{}) {
-					uses = true
+	seen := map[*ssa.Parameter]bool{}
+	var visit func(f *ssa.Function, buf *ssa.Parameter, depth int)
+	visit = func(f *ssa.Function, buf *ssa.Parameter, depth int) {
+		if seen[buf] || depth > 3 {
+			return
+		}
+		seen[buf] = true
+		allInstrs(f, func(in ssa.Instruction) {
+			switch x := in.(type) {
+			case *ssa.Call:
+				for ai, a := range x.Call.Args {
+					if !derivedFrom(a, buf, map[ssa.Value]bool{}) {
+						continue
+					}
+					if allowed[calleeName(x.Common())] {
+						continue
+					}
+					// a helper of the module that only reads it in the same way
+					if g := x.Call.StaticCallee(); g != nil && g.Blocks != nil && ModuleFunc(g) && ai < len(g.Params) {
+						visit(g, g.Params[ai], depth+1)
+						continue
+					}
+					w = append(w, c.At(in)+": passed to "+calleeName(x.Common()))
+				}
+			case *ssa.Store:
+				if derivedFrom(x.Addr, buf, map[ssa.Value]bool{}) {
+					w = append(w, c.At(in)+": store through the argument")
+				}
+				if x.Val == ssa.Value(buf) && f != fn {
+					w = append(w, c.At(in)+": the argument is kept by a helper")
 				}
 			}
-			if uses && !allowed[calleeName(x.Common())] {
-				w = append(w, c.At(in)+": passed to "+calleeName(x.Common()))
-			}
-		case *ssa.Store:
-			if derivedFrom(x.Addr, buf, map[ssa.Value]bool{}) {
-				w = append(w, c.At(in)+": store through the argument")
-			}
-		}
-	})
+		})
+	}
+	visit(fn, fn.Params[1], 0)
 	if len(w) > 0 {
 		c.ViolateW("rewriter.RW.Do argument read-only", c.AtFn(fn), "RW.Do may modify its argument in place: the blacklist/aggregator copies of the name change under them", w)
 	} else {
-		c.Hold("rewriter.RW.Do argument read-only", c.AtFn(fn), "argument only reaches non-mutating library calls or is returned")
+		c.Hold("rewriter.RW.Do argument read-only", c.AtFn(fn), "argument only reaches non-mutating library calls (directly or in the module helpers it is handed to) or is returned")
 	}
 	_ = types.Typ
 }
@@ -434,14 +451,34 @@ func c04r5(c *Check) {
 func c04r6(c *Check) {
 	fn := c.P.Func("rewriter", "RW", "Do")
 	recv, buf := ssa.Value(fn.Params[0]), ssa.Value(fn.Params[1])
+	var resolve func(ssa.Value) ssa.Value
 	rwField := func(v ssa.Value) (string, bool) {
 		root, names := fieldPath(v)
+		if resolve != nil {
+			// inside an expanded helper method the receiver is the helper's own parameter: what was passed for it
+			for k := 0; k < 3; k++ {
+				r2 := resolve(root)
+				if r2 == root {
+					break
+				}
+				var more []string
+				root, more = fieldPath(r2)
+				names = append(more, names...)
+			}
+		}
 		if len(names) == 1 && (root == recv || strip(root) == recv) {
 			return names[0], true
 		}
 		return "", false
 	}
-	cfg := &PathCfg{Branch: func(ifi *ssa.If, cond ssa.Value, taken bool) []string {
+	isBuf := func(v ssa.Value) bool {
+		if v == buf {
+			return true
+		}
+		return resolve != nil && resolve(v) == buf
+	}
+	cfg := &PathCfg{Inline: func(g *ssa.Function) bool { return fnPkg(g) == fnPkg(fn) }, BranchV: func(ifi *ssa.If, cond ssa.Value, taken bool, res func(ssa.Value) ssa.Value) []string {
+		resolve = res
 		cnd, neg := negStrip(cond)
 		val := taken != neg
 		tf := map[bool]string{true: "T", false: "F"}
@@ -475,11 +512,11 @@ func c04r6(c *Check) {
 		case *ssa.Call:
 			switch calleeName(x.Common()) {
 			case "(*regexp.Regexp).Match":
-				if f, ok := rwField(x.Call.Args[0]); ok && x.Call.Args[1] == buf {
+				if f, ok := rwField(x.Call.Args[0]); ok && isBuf(x.Call.Args[1]) {
 					return []string{"P:" + f + "=" + tf[val]}
 				}
 			case "bytes.Contains":
-				if f, ok := rwField(x.Call.Args[1]); ok && x.Call.Args[0] == buf {
+				if f, ok := rwField(x.Call.Args[1]); ok && isBuf(x.Call.Args[0]) {
 					return []string{"P:" + f + "=" + tf[val]}
 				}
 			}
@@ -497,10 +534,19 @@ func c04r6(c *Check) {
 		}
 		a := map[string]bool{}
 		known := map[string]bool{}
+		infeasible := false
 		for _, e := range pa.Events {
 			k := e.Class[:len(e.Class)-2]
-			a[k] = strings.HasSuffix(e.Class, "=T")
+			v := strings.HasSuffix(e.Class, "=T")
+			// the rewriter is not modified by Do: the same test cannot come out both ways on one path
+			if known[k] && a[k] != v {
+				infeasible = true
+			}
+			a[k] = v
 			known[k] = true
+		}
+		if infeasible {
+			continue
 		}
 		// what is returned
 		kind := "?"
@@ -625,6 +671,47 @@ func c04r7(c *Check) {
 			leaves = append(leaves, leaf{v, pred})
 		}
 		walk(v, nil)
+		// a helper that compiles the specification when it is enclosed in slashes (compileIfRegexp(spec)):
+		// its result leaves take the place of the call, with the helper's parameter as the specification
+		base := ssa.Value(par[p])
+		for pass := 0; pass < 2; pass++ {
+			var expanded []leaf
+			changed := false
+			for _, l := range leaves {
+				ex, ok := l.v.(*ssa.Extract)
+				if ok && ex.Index == 0 {
+					if hc, ok := ex.Tuple.(*ssa.Call); ok {
+						if h := hc.Call.StaticCallee(); h != nil && h.Blocks != nil && fnPkg(h) == fnPkg(fn) && len(h.Params) == 1 && len(hc.Call.Args) == 1 && hc.Call.Args[0] == base {
+							base = h.Params[0]
+							allInstrs(h, func(in ssa.Instruction) {
+								if ret, ok := in.(*ssa.Return); ok && len(ret.Results) == 2 {
+									var sub []leaf
+									var w2 func(v ssa.Value, pred *ssa.BasicBlock)
+									w2 = func(v ssa.Value, pred *ssa.BasicBlock) {
+										if phi, ok := v.(*ssa.Phi); ok {
+											for i, e := range phi.Edges {
+												w2(e, phi.Block().Preds[i])
+											}
+											return
+										}
+										sub = append(sub, leaf{v, nil})
+									}
+									w2(ret.Results[0], nil)
+									expanded = append(expanded, sub...)
+								}
+							})
+							changed = true
+							continue
+						}
+					}
+				}
+				expanded = append(expanded, l)
+			}
+			if !changed {
+				break
+			}
+			leaves = expanded
+		}
 		for _, l := range leaves {
 			if k, ok := l.v.(*ssa.Const); ok && k.IsNil() {
 				continue
@@ -640,11 +727,11 @@ func c04r7(c *Check) {
 				continue
 			}
 			sl, ok := call.Call.Args[0].(*ssa.Slice)
-			okSl := ok && sl.X == ssa.Value(par[p])
+			okSl := ok && sl.X == base
 			if okSl {
 				lo, ok1 := constInt(sl.Low)
 				okSl = ok1 && lo == 1
-				if bo, ok := sl.High.(*ssa.BinOp); !ok || bo.Op != token.SUB || !isLenOf(bo.X, par[p]) {
+				if bo, ok := sl.High.(*ssa.BinOp); !ok || bo.Op != token.SUB || !isLenOf(bo.X, base) {
 					okSl = false
 				} else if k, ok := constInt(bo.Y); !ok || k != 1 {
 					okSl = false
@@ -660,7 +747,7 @@ func c04r7(c *Check) {
 		}
 		if compile != nil && bad == "" {
 			for _, l := range leaves {
-				if k, ok := l.v.(*ssa.Const); ok && k.IsNil() && l.pred != nil && compile.Block().Dominates(l.pred) {
+				if k, ok := l.v.(*ssa.Const); ok && k.IsNil() && l.pred != nil && compile.Parent() == l.pred.Parent() && compile.Block().Dominates(l.pred) {
 					bad = "RW." + f + " is reset to nil after the expression was compiled: a /regex/ rule is silently applied as a literal rule (no anchors, no ${n} expansion)"
 				}
 			}
